@@ -72,7 +72,7 @@ def deviations(ctx):
     jobs.append((dict(module="ProfCache", cfg='CONSTANTS\n  NChunks = 4\n  Dev = {"InterruptEndsDump"}\nSPECIFICATION Spec\nINVARIANTS SecondRunSound ValidMeansComplete\nCHECK_DEADLOCK FALSE\n',
                       name="dev_cache_interrupt", expect_violation=True), None))
     import histfam
-    for dev in ("TextKeyCache", "InstalledArchRecord", "FilterCache", "LazyAlias", "LogDegrades"):
+    for dev in ("TextKeyCache", "InstalledArchRecord", "FilterCache", "LazyAlias", "LogDegrades", "ActionProbe", "ValueMemo"):
         j = histfam.mc_job(2, '{"%s"}' % dev, name="dev_hist_" + dev)
         j["expect_violation"] = True
         jobs.append((j, "Memoryless"))
